@@ -367,7 +367,7 @@ func runC06(c *Ctx, variant int) {
 		maxSize = 300
 	}
 	d.ws.SetMaxMessageSize(maxSize)
-	nMsgs := w.Range(1, 8)
+	nMsgs := w.Range(1, c.Deep(8))
 	if variant >= 0 {
 		nMsgs = 2
 	}
